@@ -1,3 +1,5 @@
 import LyModel.Props.C05
 #print axioms LyModel.Props.C05.json_exp_number_in_bounds
 #print axioms LyModel.Props.C05.getutf8_reads_before_nul
+#print axioms LyModel.Props.C05.json_string_buffer_safe
+#print axioms LyModel.Props.C05.xml_value_buffer_safe
